@@ -30,9 +30,11 @@ REFINED = ["Repr::reduce", "Repr::reduce_with_hint", "Repr::reduce2",
            "body equal to the model function the driver executes, for all inputs incl. zero denominators and panics "
            "(binary_ops_regenerated, int_right_ops_regenerated, int_left_ops_regenerated, euclid_ops_regenerated, invocations_regenerated); "
            "likewise the 20 Repr-level function bodies: repr.rs reduce / reduce_with_hint / reduce2, round.rs split_at_point / ceil / floor / trunc / "
-           "fract / round, div.rs Inverse::inv, sign.rs neg / abs / Mul<Sign>, mul.rs sqr / cubic / pow, rbig.rs from_parts / from_parts_signed of both "
-           "types (vlib/extract_ratfns.py -> lean/Dashu/Gen/RatFns.lean; reductions_regenerated, rounding_regenerated, unary_regenerated, "
-           "constructors_regenerated). Still hand-mirrored only (Tie B + theorem, no Tie A): from_parts_const's `while` loop (both types)",
+           "fract / round, div.rs Inverse::inv, sign.rs neg / abs / Mul<Sign>, mul.rs sqr / cubic / pow, rbig.rs from_parts / from_parts_signed / "
+           "from_parts_const of both types — 22 bodies, incl. the const Euclid `while` loop of RBig::from_parts_const regenerated as "
+           "G.while_dec measure cond step and proved equal to the model's constGcdLoop (vlib/extract_ratfns.py -> lean/Dashu/Gen/RatFns.lean; "
+           "reductions_regenerated, rounding_regenerated, unary_regenerated, constructors_regenerated, const_constructors_regenerated, "
+           "const_gcd_loop_regenerated)",
            "IBig::pow sign rule (negative iff negative base and odd exponent) + UBig::pow shortcuts (exp 0, base 0, base 1): ipowK / upowK, proved = ^",
            "RBig/Relaxed is_zero / is_one (Relaxed: numerator == denominator) / is_int / sign / into_parts / clone_from / ZERO ONE NEG_ONE default (driven; predicates proved)",
            "histories: Relaxed = RBig over whole programs (history_relaxed_equals_rbig, history_canonicalize_equals_rbig), reduce2 invariant over "
@@ -46,8 +48,6 @@ FRONTIER = ["dashu-int kernels used by the rational layer are taken at their con
             "the word-level kernels inside the rational driver (that would make the driver quadratically slower without adding a statement)",
             "pow with a base other than 0, 1, -1 and an exponent beyond memory (even bases: exp.checked_mul(shift) / shl allocation panic) is not driven here: "
             "the result size guard is C01's u_pow_checked_exact / C16's transcription",
-            "RBig::from_parts_const / Relaxed::from_parts_const: hand-mirrored (const Euclid `while` loop) with theorem + Tie B only; the `while` loop is outside "
-            "the subset vlib/extract_ratfns.py regenerates",
 ]
 RULE = ("operands n/d built from size classes {tiny, 1 word, 2 words (inline boundary), 3-6 words, 10-40 words} x bit patterns "
         "x signs, then related to each other the way the code branches: denominators coprime (g = 1 shortcut) or sharing a "
@@ -550,7 +550,7 @@ LEVEL_TEXT = ("Machine-checked Lean 4 theorems, for all integers (no size bound)
               "DivideByZero exactly on zero divisors, Relaxed operations return the same values and reduce2 strips exactly the "
               "common power of two; history theorems over register programs (invariants, values, Relaxed = RBig over whole histories, "
               "reduce2 fixed point); sign corners of pow/inv; predicates. Tie A: all 24 operator macro bodies of rational/src/{add,mul,div}.rs, "
-              "their 48 invocations and 20 Repr-level function bodies (reductions, rounding, inverse, sign, powers, constructors) are "
+              "their 48 invocations and 22 Repr-level function bodies (reductions, rounding, inverse, sign, powers, constructors incl. the const Euclid loop) are "
               "regenerated from /repo on every run and proved equal to the model functions for all inputs (Props/C04Gen). Tie B: differential execution (numerator()/denominator() as stored, all ownership/assign call forms, "
               "programs of 1-40 steps feeding results back, extreme usize exponents).")
 LEVEL_NOTE = ("Trusted: Lean kernel; axioms propext/Classical.choice/Quot.sound; the correspondence harness and generators "
